@@ -37,8 +37,10 @@ def classify(problems, feats, nroots):
     return None
 
 
-def run_one(R, level, roots, db, api, label):
-    outcome, ys, w = wc.run_walk(level, db, roots, api)
+def run_one(R, level, roots, db, api, label, w=None):
+    outcome, ys, w = wc.run_walk(level, db, roots, api, w=w)
+    if label == "reuse":
+        R.mon["walks_on_a_reused_client"] += 1
     feats = wc.wire_features(w.agent)
     truth = gen.truth_below(db, roots)
     nreq = len(w.seam.requests)
@@ -91,6 +93,13 @@ def run(R):
             run_one(R, level, order, db, "multiwalk", "gen")
             if j == 0 and len(order) > 1 and i % 3 == 0:
                 run_one(R, levels[(i + 1) % len(levels)], order, db, "pymultiwalk", "gen")
+        if i % 5 == 2:
+            # ONE client walks several times in a row (same roots twice, another order,
+            # the pythonic wrapper): every walk must be exact on its own
+            lv = levels[i % len(levels)]
+            w = rig.World(lv, db)
+            for api, order in (("multiwalk", orders[0]), ("multiwalk", orders[0]), ("multiwalk", orders[-1]), ("pymultiwalk", orders[0]), ("multiwalk", orders[0])):
+                run_one(R, lv, order, db, api, "reuse", w=w)
         if len(roots) == 1:
             run_one(R, levels[i % len(levels)], roots, db, "walk", "gen")
             run_one(R, levels[(i + 2) % len(levels)], roots, db, "pywalk", "gen")
